@@ -1,7 +1,10 @@
 (* The observable alphabet of a gateway execution (what clients and services can see), in the
    abstract notation produced by the harness from the real frames, and the client-side data types. *)
 From Coq Require Import List Arith ZArith Bool Ascii.
+From RG Require Import Pure.Status.
 Import ListNotations.
+Close Scope Z_scope.
+Open Scope nat_scope.
 
 Definition rid := nat.          (* interned resource id (as the client wrote it) *)
 Definition conn := nat.         (* connection label c0, c1, ... *)
@@ -94,6 +97,7 @@ Inductive tev :=
 | TQueryAnswered (aliases : list rid)                 (* a query request was answered; the client-side ids that alias the answered variant *)
 | TSched (w : option conn)                           (* a worker was granted a task; Some c for connection c's worker *)
 | TRawOut (c : conn) (leak : bool)                   (* a frame was written to c; leak: it contains some connection id *)
-| THttpReq (h : conn) (get : bool) (r : rid) (meth : list ascii)
-| THttpResp (h : conn) (status : nat) (has_body : bool)
+| THttpReq (h : conn) (m : nat) (valid : bool) (r : rid)          (* m: 0 GET, 1 HEAD, 2 POST, 3 other; valid: the URL maps to a resource id (and method) *)
+| THttpResp (h : conn) (status : nat) (kind : nat) (c : Status.code)   (* kind: 0 empty, 1 error object, 2 data *)
+| THttpSvcErr (h : conn) (c : Status.code)                           (* a service answered a request made for h with this error *)
 | TOther.
